@@ -623,13 +623,23 @@ def shram_writes(V, **params):
     return c04.shram_writes(V, **params)
 
 
-FUNCS = {"pair": pair, "waits": waits, "shram_writes": shram_writes}
+def layout_kernel(V, **params):
+    """block configuration and SHRAM layout of the input operation: the layout registers are computed from the operation's OWN kernel
+    (harness/c15.py generator_kernel)"""
+    from harness import c15
+
+    return c15.generator_kernel(V, **params)
+
+
+FUNCS = {"pair": pair, "waits": waits, "shram_writes": shram_writes, "layout_kernel": layout_kernel}
 
 
 def instances(tier, seed):
     out = []
     from harness import c04
 
+    for accel in ("Ethos_U55_128", "Ethos_U65_512"):
+        out.append(dict(key="layout_kernel/%s" % accel, fn="layout_kernel", params=dict(accel=accel)))
     for inst in c04.instances(tier, seed):
         if inst["fn"] == "shram_writes":
             out.append(dict(key=inst["key"], fn="shram_writes", params=inst["params"]))
